@@ -193,15 +193,24 @@ func docEvent(src string, denotes any, style string, R int) obj {
 				fail("json.Marshal of a step", err)
 				return
 			}
-			var again pipeline.CommandStep
-			if err := again.UnmarshalJSON(sb); err != nil {
-				fail("CommandStep.UnmarshalJSON", err)
-				return
-			}
-			ab, err := json.Marshal(&again)
-			if err != nil {
-				fail("json.Marshal of a re-decoded step", err)
-				return
+			var ab []byte
+			for rep := 0; rep < 8; rep++ { // (several times: the decoder must not depend on map iteration order)
+				var again pipeline.CommandStep
+				if err := again.UnmarshalJSON(sb); err != nil {
+					fail("CommandStep.UnmarshalJSON", err)
+					return
+				}
+				b, err := json.Marshal(&again)
+				if err != nil {
+					fail("json.Marshal of a re-decoded step", err)
+					return
+				}
+				if rep > 0 && !bytes.Equal(b, ab) {
+					ev["same"] = false
+				}
+				if rep == 0 || !bytes.Equal(b, sb) {
+					ab = b // keep a decoding that differs from what was emitted, if any
+				}
 			}
 			solo = append(solo, []any{mustAVJSON(sb, "step"), mustAVJSON(ab, "step again"), "step"})
 			if len(cs.Plugins) > 0 {
